@@ -60,6 +60,7 @@ func init() {
 }
 
 func runC01(c *Ctx, r *Report) {
+	importFoundation(c, r, "C01", "response-record")
 	importFoundation(c, r, "C01", "queue")
 	importFoundation(c, r, "C01", "transport-pipe")
 	r.Rule("C01/explicit-matcher", "the exact echo matcher tests that the search window contains the input", 1)
